@@ -2,6 +2,7 @@ package props
 
 import (
 	"fmt"
+	"math"
 	"reflect"
 	"testing"
 
@@ -438,6 +439,43 @@ func (c *C09Case) run() string {
 	if m := unchanged(); m != "" {
 		return desc + ": " + m
 	}
+	// the delivered matrix is an ordinary tensor: as the operand of a further product it stands for its logical
+	// contents (a destination that arrived with a pending transposition has none left)
+	if rd, ok := res.(*tensor.Dense); ok && d.IsFloat() && len(want.Shape) == 2 && prod(want.Shape) > 0 && c.Op != "Dot" {
+		ones := tensor.New(tensor.WithShape(want.Shape[1]), tensor.WithBacking(mkBacking(d, seqArrConst(d, want.Shape[1], 1))))
+		var mv *tensor.Dense
+		var merr error
+		if p := try(func() { mv, merr = rd.MatVecMul(ones) }); p != "" {
+			return desc + ": using the result as the operand of a further product panicked: " + p
+		}
+		if merr == nil {
+			rows := Arr{DT: d, Shape: []int{want.Shape[0]}, E: make([]interface{}, want.Shape[0])}
+			finite := true
+			for i := 0; i < want.Shape[0]; i++ {
+				acc := 0.0
+				for j := 0; j < want.Shape[1]; j++ {
+					acc += toF64(want.E[i*want.Shape[1]+j])
+				}
+				for j := 0; j < want.Shape[1]; j++ {
+					// (exact only for small integer values: anything else depends on the order of the sum)
+					if v := toF64(want.E[i*want.Shape[1]+j]); v != math.Trunc(v) || math.Abs(v) > 1<<20 {
+						finite = false
+					}
+				}
+				rows.E[i] = conv(d, 0)
+				if d.Name == "float32" {
+					rows.E[i] = float32(acc)
+				} else {
+					rows.E[i] = acc
+				}
+			}
+			if finite {
+				if m := compareAt(mv, rows, eqVal); m != "" {
+					return desc + ": the result, used as the operand of a further product (times a vector of ones), does not stand for the contents it reads back with: " + m
+				}
+			}
+		}
+	}
 	if Dst != nil && (c.Mode == "reuse" || c.Mode == "incr") && Dst.b.T == Dst.b.Root && c.Op != "Dot" {
 		// the caller is done with the destination and hands it back: nothing may reach the pools twice
 		// (whatever the call returned to the pools on the destination's behalf, the destination no longer holds)
@@ -709,3 +747,12 @@ func inF29(c *C09Case) bool {
 }
 
 var c09Last string
+
+// seqArrConst: n copies of the value v in element type d.
+func seqArrConst(d DT, n int, v int64) []interface{} {
+	out := make([]interface{}, n)
+	for i := range out {
+		out[i] = conv(d, v)
+	}
+	return out
+}
